@@ -145,7 +145,7 @@ def run(prop, tier, seed):
     C.build_driver()
     C.build_harness()
     quick = tier == "quick"
-    n, steps, nbin = (500, 150, 120) if quick else (5000, 400, 1500)
+    n, steps, nbin = (500, 150, 120) if quick else (3000, 300, 1200)
     cases = gen_cases(rng, n)
     hist = Counter()
     l0 = C.run_impl([case_line("exec", "pre", steps, p, s) for _, p, s in cases])
